@@ -14,8 +14,8 @@ claim("C18",
 HTTP_NOTE = ("Trusted: genhost (abstract design -> public DSL calls), mkrunner/rt (reflection glue, tap through net/http request serialisation and "
              "re-parsing; removal of one body member on the wire for the `nofield` values), the concretisation/projection functions in vlib/httpgen.py, "
              "encoding/json, go build. TLC enumerates one-attribute method shapes exhaustively over the envelope of lib/Values.tla (kinds incl. sized "
-             "numbers, bytes, any x path/query/header/cookie/body x required/optional/default/transport-only-required x 15 rules x 20 nestings incl. query "
-             "maps, MapParams, whole payloads, defaulted collections; quick: a seeded stratified sample of the shapes, thorough: all of them) plus seeded "
+             "numbers, bytes, any x path/query/header/cookie/body x required/optional/default (declared on the attribute, on the alias type, or on both)/transport-only-required x 15 rules x 21 nestings incl. query "
+             "maps, MapParams, whole payloads, defaulted collections, an alias inside a nested type; quick: a seeded stratified sample of the shapes, thorough: all of them) plus seeded "
              "two-attribute methods (same location, twins sharing a type, parameter + cookie, two tagged responses, named payload types) whose oracle and "
              "mechanism TLC recomputes; "
              "verdicts come only from the behaviour of the real generated code.")
@@ -62,7 +62,8 @@ claim("C19",
 claim("C05",
       "ErrorMap.tla (tables of 1-3 errors per method, each with declaration levels method/service/API and HTTP response levels method/service/API - the 32 "
       "placements goa accepts, with the resolution order of HTTPServiceExpr/HTTPEndpointExpr.Prepare modelled -, shared or own statuses, ErrorResult and user "
-      "types, declared flags, declaration order; service outcomes: every declared error plain and wrapped, undeclared ServiceError x 8 flag combinations, plain "
+      "types, declared flags, declaration order, and the way the design writes the status: Response(name, code) / with a function / Code() inside the function / "
+      "swapped arguments / no status (400) - the expected status is the one written, never read back from goa; service outcomes: every declared error plain and wrapped, undeclared ServiceError x 8 flag combinations, plain "
       "error; four request decode failures) is model-checked (all 7200 ordered pairs; a stratified cut of them and sampled triples go through real code); every case runs through "
       "the real generated server and client and status, goa-error header, body, WriteHeader count and the client's error are compared with the model.",
       HTTP_NOTE + " What the client returns for an undeclared error is not constrained (the statement does not fix it).",
@@ -76,7 +77,8 @@ claim("C06",
       "TLC exhaustive model checking + TLC-generated cases replayed on generated code", "DESIGN.md 6 (C06)")
 claim("C08",
       "Views.tla (catalogue of result-type graphs G1-G11: flat, nested with per-attribute view overrides, one type used twice, lookalike types, collections, nested "
-      "collections, recursive; each taken under view declaration order first/last/implicit x required-in-view variants; values with at most one invalid validated "
+      "collections, recursive; each taken under view declaration order first/last/implicit x required-in-view variants x method order x the way a collection is "
+      "declared (CollectionOf(T) plain / with an empty or descriptive function / with a view-fixing function); values with at most one invalid validated "
       "attribute; views chosen by the service or fixed in the design; undefined view label) is model-checked exhaustively; every case runs through the real generated server and client; body keys on the wire "
       "(recursively), goa-view header and the fields set on the client's result are compared with the model's projection.",
       HTTP_NOTE + " The recursive graph G4 is set aside while its generated code does not compile (a C01 finding).",
@@ -177,8 +179,8 @@ claim("C14",
 claim("C12",
       "DSLProgram.tla (a DSL program as a tree of calls executed by a pushdown automaton over evaluation contexts; a table of 120 public DSL functions with their "
       "documented contexts and argument shapes that steers generation toward deep contexts and toward misplaced, ill-typed, nil, repeated and dangling calls; "
-      "declarative Dangling predicate over 9 kinds of reference incl. security scopes; recursive types through attribute/array/map are part of the program "
-      "space) is model-checked with 33 deviation guards; TLC enumerates (depth-bounded) and simulates programs, "
+      "declarative Dangling predicate over 10 kinds of reference incl. security scopes and response mappings of attributes outside the rendered view(s); recursive types through attribute/array/map are part of the program "
+      "space) is model-checked with 35 deviation guards; TLC enumerates (depth-bounded) and simulates programs, "
       "harness/cmd/dslhost maps every abstract call to a real call of the dsl package, runs eval.RunDSL in child processes (panic / timeout isolated and re-confirmed "
       "alone) and the outcome (accepted / rejected with located errors / crashed) of every program is validated by TLC as a trace that recomputes Dangling itself; "
       "accepted programs are handed to gen + go build.",
